@@ -82,6 +82,14 @@ func (g *Engine) Start() error {
 		g.pollers[i] = p
 	}
 
+	// The pollers read these from their own goroutines as soon as they run:
+	// decide them before the goroutines are started.
+	g.isOneshot = (g.EpollMod == EPOLLET && g.EPOLLONESHOT == EPOLLONESHOT)
+	if g.AsyncReadInPoller && g.IOExecute == nil {
+		g.ioTaskPool = taskpool.NewIO(0, 0, 0)
+		g.IOExecute = g.ioTaskPool.Go
+	}
+
 	// Start IO pollers.
 	for i := 0; i < g.NPoller; i++ {
 		g.pollers[i].ReadBuffer = make([]byte, g.ReadBufferSize)
